@@ -329,6 +329,15 @@ class Env:
 # ConnectionError, socket.timeout), which must not make the library treat them as retryable.
 LOCAL_FAULT_KINDS = ['plain', 'plain', 'brokenpipe', 'timeout']
 
+# extra_args a user may pass (all allowed for every transfer method they are used with); the fake client
+# rejects parameters an operation does not have, as botocore does before sending anything
+EXTRA_ARG_SETS = {
+    'ssec': {'SSECustomerAlgorithm': 'AES256', 'SSECustomerKey': 'key', 'SSECustomerKeyMD5': 'md5'},
+    'payer': {'RequestPayer': 'requester'},
+    'owner': {'ExpectedBucketOwner': '123456789012'},
+    'meta': {'Metadata': {'a': 'b'}},
+}
+
 
 def make_local_fault(kind, tag, base=None):
     import socket
@@ -362,6 +371,10 @@ def gen_scenario(rng, focus=None):
         'num_download_attempts': rng.choice([1, 2, 3]),
         'max_in_memory_upload_chunks': small(), 'max_in_memory_download_chunks': small(),
     }
+    if rng.random() < 0.25:
+        # a bandwidth limit: bodies are wrapped in BandwidthLimitedStream (virtual clock); mostly far above
+        # what these tiny transfers need, sometimes low enough to make closes wait
+        cfg['max_bandwidth'] = rng.choice([10 ** 9, 10 ** 9, 4096, 64])
     nt = rng.choice([1, 1, 1, 2, 2, 3])
     transfers = []
     for ti in range(nt):
@@ -382,6 +395,8 @@ def gen_scenario(rng, focus=None):
             t['dest'] = rng.choice(['path', 'seekable', 'nonseekable', 'nonseekable'])
             if t['dest'] == 'path':
                 t['previous'] = rng.choice([None, None, 5])
+        if rng.random() < 0.3:
+            t['extra_args'] = rng.choice(['ssec', 'ssec', 'payer', 'owner', 'meta'])
         subs = []
         for si in range(rng.choice([0, 1, 1, 2])):
             sp = {'id': si}
@@ -432,7 +447,7 @@ def gen_scenario(rng, focus=None):
         cancel = {'kind': 'interrupt-exit', 'how': rng.choice(['with', 'with', 'shutdown']), 'nth_wait': rng.choice([0, 0, 1])}
     sc = {'cfg': cfg, 'transfers': transfers, 'faults': faults, 'cancel': cancel,
           'mode': rng.choice(['uniform', 'sticky', 'sticky', 'pct', 'stall', 'stall']), 'sched_seed': rng.randrange(1 << 30),
-          'fresh_after': rng.random() < 0.3}
+          'fresh_after': rng.random() < 0.3, 'fresh_nonseekable': rng.random() < 0.5}
     # shutdown() without cancel while transfers are still in flight: the barrier itself
     if cancel is None and rng.random() < 0.25:
         sc['early_shutdown'] = rng.choice([0, 0, 2, 5, 10, 25, 40])
@@ -673,14 +688,20 @@ def _run_inner2(sc, sch, sh, env, run):
         t = sc['transfers'][ti]
         sp = specs[ti]
         env.log('submit', ti=ti, tkind=t['kind'])
+        more = dict(EXTRA_ARG_SETS.get(t.get('extra_args'), {}))
         if t['kind'] == 'upload':
             extra = {'ChecksumAlgorithm': t['checksum']} if t.get('checksum') else {}
+            extra.update(more)
             return tm.upload(sp['fileobj'], 'b', 'k%d' % ti, extra_args=extra, subscribers=sp['subs'])
         if t['kind'] == 'download':
-            return tm.download('b', 'src%d' % ti, sp['fileobj'], subscribers=sp['subs'])
+            more.pop('Metadata', None)
+            return tm.download('b', 'src%d' % ti, sp['fileobj'], extra_args=more, subscribers=sp['subs'])
         if t['kind'] == 'copy':
-            return tm.copy({'Bucket': 'sb', 'Key': 'src%d' % ti}, 'b', 'k%d' % ti, subscribers=sp['subs'])
-        return tm.delete('b', 'k%d' % ti, subscribers=sp['subs'])
+            return tm.copy({'Bucket': 'sb', 'Key': 'src%d' % ti}, 'b', 'k%d' % ti, extra_args=more, subscribers=sp['subs'])
+        more.pop('Metadata', None)
+        for k in [k for k in more if k.startswith('SSECustomer')]:
+            more.pop(k)
+        return tm.delete('b', 'k%d' % ti, extra_args=more, subscribers=sp['subs'])
 
     def collect(ti, fut):
         try:
@@ -799,7 +820,8 @@ def _run_inner2(sc, sch, sh, env, run):
             if sc.get('fresh_after'):
                 sh.interrupt_plan.clear()
                 fake.objects[('b', 'fresh')] = b'fresh-object'
-                dst = DestStream(env, 99, True, None)
+                # a non-seekable destination makes the fresh download need an in-memory window slot as well
+                dst = DestStream(env, 99, not sc.get('fresh_nonseekable'), None)
                 env.log('submit', ti=99, tkind='download')
                 ff = tm.download('b', 'fresh', dst)
                 try:
